@@ -49,6 +49,11 @@ pub struct ItemReq {
     /// identifiers of generic parameters that stand for the float type (R-float bookkeeping only)
     #[serde(default)]
     pub float_params: Vec<String>,
+    /// R-index: variable name -> indexing function, for `X[i]` on foreign containers
+    #[serde(default)]
+    pub index_map: BTreeMap<String, String>,
+    #[serde(default)]
+    pub binop_map: BTreeMap<String, String>,
 }
 
 #[derive(Deserialize, Default, Clone)]
@@ -202,7 +207,13 @@ fn extract_struct(file: &File, req: &ItemReq, resp: &mut ItemResp) -> std::resul
                 if let Fields::Named(named) = &s.fields {
                     for f in &named.named {
                         let n = f.ident.as_ref().unwrap().to_string();
-                        let t = norm_tokens(f.ty.to_token_stream());
+                        let mut fty = f.ty.clone();
+                        {
+                            // type-level rules (R-f64) apply to field types as well
+                            let mut rw = Rewriter::new(req.rules.iter().cloned().collect());
+                            rw.visit_type_mut(&mut fty);
+                        }
+                        let t = norm_tokens(fty.to_token_stream());
                         hash_src.push_str(&format!("{}:{};", n, t));
                         if req.drop_fields.contains(&n) {
                             resp.dropped.push(format!("field `{}: {}` (listed in drop_fields)", n, t));
@@ -524,6 +535,8 @@ fn extract_fn(file: &File, req: &ItemReq, resp: &mut ItemResp) -> std::result::R
     // 1. rewrite rules
     let enabled: HashSet<String> = req.rules.iter().cloned().collect();
     let mut rw = Rewriter::new(enabled);
+    rw.index_map = req.index_map.clone();
+    rw.binop_map = req.binop_map.clone();
     rw.visit_block_mut(&mut block);
     resp.rewrites = pre_log;
     resp.rewrites.extend(std::mem::take(&mut rw.log));
